@@ -5,7 +5,7 @@
    in which independent attributes are assigned), loops are handled through the behaviour of their bodies on one
    item (proved by computation from the generated text). *)
 From Coq Require Import List ZArith Bool String Lia.
-From SX Require Import Lib.Py Model.PObj Model.PObjRt Gen.GenPObj.
+From SX Require Import Lib.Py Model.PObj Model.PObjRt Gen.GenPObj Proofs.C02_PObj.
 Import ListNotations.
 Local Open Scope Z_scope.
 
@@ -646,8 +646,30 @@ Theorem source_particle_as_list (self : val) p :
   = (l <- mapM (pattr p) row_fields ;; Ok (self, VList l)).
 Proof.
   unfold gen_ParticleObjectStorer_particle_as_list, row_fields. cbn [py_pattr mapM].
-  repeat (match goal with |- context [pattr p ?a] => destruct (pattr p a); cbn [rbind]; [|reflexivity] end).
+  repeat (match goal with |- context [pattr p ?a] => destruct (pattr p a); [|reflexivity] end).
   reflexivity.
+Qed.
+
+(* ------------------------------------------------------------------ the property, read on the translated source *)
+Lemma of_evs_inj (a b : list (list P)) : of_evs a = of_evs b -> a = b.
+Proof. intros H. apply (f_equal as_evs) in H. rewrite !as_evs_of_evs in H. congruence. Qed.
+
+(* C02 (Proofs/C02_PObj.v, pobj_range_is_slice) on the regenerated constructor: with events=(a, b) the storer holds
+   the slice a..b of what it holds without `events` - events, their number, the count rows under their labels *)
+Theorem source_range_is_slice evs kw a b ev_full n cnts :
+  keys_ok kw = true -> lookup "events" kw = None -> 0 <= a <= b -> b < zlen evs ->
+  obs (gen_new_ParticleObjectStorer P flt (of_evs evs) (VDict kw)) = Ok (of_evs ev_full, VInt n, VArr2 cnts) ->
+  obs (gen_new_ParticleObjectStorer P flt (of_evs evs) (VDict (("events"%string, VTuple [VInt a; VInt b]) :: kw)))
+  = Ok (of_evs (pslice a b ev_full), VInt (b + 1 - a), VArr2 (pslice a b cnts)).
+Proof.
+  intros Hk He Hab Hb H0.
+  rewrite (source_pload evs kw PAll Hk) in H0 by (rewrite He; reflexivity).
+  destruct (pload P _ PAll evs) as [full|] eqn:Ef; cbn [rmap] in H0; [|discriminate].
+  unfold of_storer in H0. injection H0 as H1 H2 H3. apply (f_equal (@VList P)) in H1. apply of_evs_inj in H1.
+  rewrite (source_pload evs _ (PRange a b)); [| exact Hk | reflexivity].
+  change (lookup "filters" (("events"%string, VTuple [VInt a; VInt b]) :: kw)) with (lookup "filters" kw).
+  rewrite (pobj_range_is_slice P _ evs full a b Ef Hab Hb). cbn [rmap]. unfold of_storer.
+  cbn [p_events p_nevents p_counts]. subst. reflexivity.
 Qed.
 
 (* ------------------------------------------------------------------ a run of the translated methods *)
